@@ -29,7 +29,8 @@ Theorem C15_parameter_flags_roundtrip : forall ps sl,
   /\ rf_nullable r = (sl_nullable sl && negb (sl_not_nullable sl))
   /\ rf_optional r = sl_optional sl
   /\ rf_skip r = sl_skip sl
-  /\ rf_transfer r = match sl_transfer sl with Some TNone => Some 0 | Some TContainer => Some 1 | Some TFull => Some 2 | None => None end.
+  /\ rf_transfer r = match sl_transfer sl with Some TNone => Some 0 | Some TContainer => Some 1 | Some TFull => Some 2
+                                        | None => if sl_skip sl then Some 0 else None end.
 Proof. exact roundtrip_param. Qed.
 Print Assumptions C15_parameter_flags_roundtrip.
 
